@@ -155,3 +155,58 @@ def check_method(contract, enc, label, static_cls, mname, value):
         if not ip.ev(f):
             return f"{shown} returned {got!r}, violating the contract clause '{nm}'", {"returned": repr(got), "clause": nm}
     return None
+
+
+class TokInterp(EncInterp):
+    """interpretation for the Token contracts: the 'encoder' is a holder of the token's grammar and decoder"""
+
+    def app(self, name, a):
+        if name == "Token_predicate":
+            pname = {v: k for k, v in E.PRED.items()}[a[0]]
+            if pname.startswith("decode_"):
+                try:
+                    getattr(self.enc.decoder, pname)(a[2])
+                    return True
+                except ValueError:
+                    return False
+        if name == "some_pair_has_a_part_in_text":
+            return any(x in a[1] or y in a[1] for x, y in self.table(a[0]))
+        if name == "some_pair_delimits_text":
+            return any(a[1].startswith(x) and (a[1].endswith(y) or (y == "\n" and "\n" not in a[1])) for x, y in self.table(a[0]))
+        if name == "str_startswith":
+            return a[0].startswith(a[1])
+        if name == "str_endswith":
+            return a[0].endswith(a[1])
+        return super().app(name, a)
+
+    def table(self, i):
+        name = {v: k for k, v in T.TABLES.items()}[i]
+        if name == "g.aggregation_keywords.keys":
+            return list(self.g.aggregation_keywords.keys())
+        return super().table(i)
+
+
+class _Holder:
+    def __init__(self, g, d):
+        self.grammar, self.decoder, self.width = g, d, 80
+
+
+def check_token(contract, g, d, text):
+    from pvl.token import Token
+    mname = contract.target.rsplit(".", 1)[1]
+    b = Binder()
+    nm = b.name("token_text")
+    b.env[nm] = text
+    a = {"self": ObjV("self", cls="Token", info={"oid": "self", "text": z3.Const(nm, O.S)})}
+    tok = Token(text, grammar=g, decoder=d)
+    try:
+        got = getattr(tok, mname)()
+    except Exception as e:     # noqa
+        return f"Token({text!r}).{mname}() raised {type(e).__name__}: {e}", {"raised": type(e).__name__}
+    r = b.boolean("res", bool(got))
+    ip = TokInterp(_Holder(g, d), b.env, {})
+    ex = contract.exit_for("return")
+    for cl, f in ex.post(None, None, a, r):
+        if not ip.ev(f):
+            return f"Token({text!r}).{mname}() returned {got!r}, violating '{cl}'", {"returned": repr(got), "clause": cl}
+    return None
